@@ -137,6 +137,13 @@ CHECKS = {
    note="Not judged: bits of the KDC signature value (not covered by the server signature and not verifiable without the krbtgt key). Known finding: names with supplementary-plane characters are garbled by the NDR dependency (jcmturner/rpc). des3 has no PAC signature type.",
    technique="bounded-exhaustive enumeration of attribute models and of single-bit-flip neighbourhoods on the real code, in fault-isolating worker processes, against an independent PAC assembler",
    engine="enum+guard"),
+ "C20": dict(
+   category="model_checking",
+   text="Marker secrets are planted wherever the library holds one (two marker passwords, the long-term keys of every principal / realm of the simulated KDCs, unused entries of the client keytab, every session key the KDCs issue, authenticator subkeys recovered by the reference decoder, keytab and ccache keys). Explored: every operation sequence up to depth 2 (3 thorough) after a login over a 13-operation alphabet (login, wrong password, ticket, unknown service, other realm, SPNEGO round trip through the real acceptor, replayed token, renewal timer, KDC unreachable, tampered AS / TGS reply, change password, destroy) x 5 configurations; the 40 reply perturbations of the C09 catalogue on the AS and on the TGS exchange x 3 configurations; every truncation and 7-8 single-byte corruptions per offset of v1/v2 keytabs and a ccache; the C01 defect catalogue x 6 etypes presented to a service with a logger; Marshal after decrypt of Ticket / AS-REP / TGS-REP / KRB-PRIV / AP-REQ x 6 etypes. After every step every surface (Client.Print, Diagnostics, Credentials JSON and gob, Keytab.JSON, Config.JSON, client and service logs, Error() and %+v of every error, all bytes sent to KDCs and service, identity JSON / gob, re-encoded messages) is searched for every marker as raw 8-byte window, hex (both cases, plain / spaced), base64 (std / url, 3 alignments), decimal list and UTF-16LE. The scanner is self-tested on planted leaks at start, and the run fails as vacuous unless the success and failure paths were actually taken.",
+   design="DESIGN.md 2/C20",
+   note="Keytab.String() (an explicit key listing) and plaintext types (Authenticator, EncKDCRepPart, EncTicketPart) are not surfaces. Secret values are markers, not all values; two password shapes (one with format / quote / unicode characters).",
+   technique="bounded-exhaustive enumeration of operation sequences and error paths on the real client and service with a taint-by-marker oracle over all output surfaces",
+   engine="enum"),
 }
 
 TODO_REASON = "check not yet built in this revision of /verif (work in progress; see DESIGN.md section 2 for the planned bounded-exhaustive exploration)"
